@@ -187,6 +187,7 @@ def install(repo=None):
     fn = ssj.edit_distance_join
     dflt = fn.__defaults__[-1]
     simtok.adopt_default(dflt)
+    sched.MODSTATE.capture()
     _installed['ssj'] = ssj
     _installed['n_parallel_modules'] = n
     _installed['default_tok'] = dflt
